@@ -387,11 +387,29 @@ def randomised(spec, acc):
                 other_containers(ev, mods, imps, cfg, rnd.choice(["tuple", "generator", "map"]), acc)
             done += 1
             acc.hist("batch_size", f"{len(cfg['subs'])}x{len(cfg['objs'])}")
+            if done % 25 == 0 and cfg["objs"] and not cfg["anything"] and cfg["objs"][0][0] != "regex":
+                # the same architecture is then asked - twice, by two fresh rule objects - about a module that does not
+                # exist (a typo of one of the objects): whatever the library answers, it cannot be a report about that module
+                typo = cfg["objs"][0][1] + "_typo"
+                if typo not in mods:
+                    bad = dict(cfg, objs=[(cfg["objs"][0][0], typo)] + list(cfg["objs"][1:]))
+                    HUB.case = {"kind": "rule", "mods": mods, "imps": imps, "cfg": bad, "list_form": lf, "twice": True}
+                    for _ in range(2):
+                        run(mk_rule(bad, lf), ev)
+                        acc.evaluated()
+                    acc.count("rules_naming_an_absent_module_applied_twice_to_one_architecture")
             if done % 997 == 1:
                 acc.sample({"kind": "random", "modules": mods, "imports": imps, "rule": cfg})
 
 
 def replay(case, acc):
+    if case.get("twice"):
+        cfg = dict(case["cfg"], subs=[tuple(x) for x in case["cfg"]["subs"]], objs=[tuple(x) for x in case["cfg"]["objs"]])
+        ev = build(case["mods"], [tuple(i) for i in case["imps"]])
+        HUB.case = case
+        for _ in range(2):
+            run(mk_rule(cfg, case.get("list_form")), ev)
+        return
     if case.get("kind") == "switch-anything":
         from pytestarch import Rule
 
